@@ -568,7 +568,7 @@ C_RunDtls ==
 
 \* disconnect grace expired
 C_RunGrace ==
-    /\ cp = "run" /\ grace /\ ~flapping          \* (a flap is, by definition, shorter than the grace period)
+    /\ cp = "run" /\ grace /\ ~(flapping /\ peerAlive)   \* (a flap that recovers is, by definition, shorter than the grace period)
     /\ grace' = FALSE
     /\ SetReason("IceDisconnected")
     /\ cp' = "pre:conn.grace" /\ cval' = "Disconnected" /\ cnext' = "retTrue"
